@@ -61,6 +61,17 @@ func (r *registry) clone() *registry {
 	return &registry{entries: append([]regEntry(nil), r.entries...)}
 }
 
+// IX is an interface no service of the kit implements.
+type IX interface{ NotImplementedByAnyone() }
+
+// two more "forms" of the registry harness: a registration with two As options
+// of which one names an interface the service does not implement - the call
+// must be rejected as a whole
+const (
+	formAsBadLast  = -1 // As[I0], As[IX]
+	formAsBadFirst = -2 // As[IX], As[I0]
+)
+
 // pool of identities the queries range over
 var poolTypes = []int{0, 1, kit.NS + 0, kit.TI0}
 
@@ -179,7 +190,7 @@ func H_Registry() {
 		w.Regs[slot] = kit.Reg{Present: true, Life: life, Form: form, Variant: 0}
 		return w.Add(c, slot), w.Identities(slot)
 	}
-	forms := []int{kit.IdPlain, kit.IdNamed, kit.IdGroup, kit.IdAs, kit.IdMulti, kit.IdResObj2, kit.IdResObjGroup2}
+	forms := []int{kit.IdPlain, kit.IdNamed, kit.IdGroup, kit.IdAs, kit.IdMulti, kit.IdResObj2, kit.IdResObjGroup2, formAsBadLast, formAsBadFirst}
 	for s := 1; s <= L; s++ {
 		sfx := string(rune('0' + s))
 		op := vrt.Pick("op"+sfx, 0, 4)
@@ -188,6 +199,22 @@ func H_Registry() {
 			slot := vrt.Pick("slot"+sfx, 0, 1)
 			life := vrt.Pick("life"+sfx, 0, 2)
 			form := forms[vrt.Pick("form"+sfx, 0, len(forms)-1)]
+			if form < 0 {
+				// rejected for a reason other than a collision: nothing of it may stay
+				opts := []godi.AddOption{godi.As[kit.I0](), godi.As[IX]()}
+				if form == formAsBadFirst {
+					opts = []godi.AddOption{godi.As[IX](), godi.As[kit.I0]()}
+				}
+				var err error
+				if op == 0 {
+					err = c.AddSingleton(kit.TabC[slot][0], opts...)
+				} else {
+					err = c.AddModules(godi.NewModule("m", godi.AddSingleton(kit.TabC[slot][0], opts...)))
+				}
+				vrt.Cover("rejected_unimplemented_interface")
+				vrt.Assert(err != nil, "C17.unimplemented_interface_accepted", "step", s, "a registration As an interface the service does not implement was accepted")
+				break
+			}
 			ids := identsOfForm(slot, form)
 			collide := false
 			for _, id := range ids {
